@@ -176,7 +176,10 @@ func vhWFx(p *Path, exact bool) bool {
 				if k != len(sub.segs)-1 {
 					return false
 				}
-				good = good && vhPtEq(s.end, sub.start)
+				// Close() may turn a LineTo that ends within Epsilon of the start into the Close
+				// record without rewriting its coordinates: "returns to the start" is meant
+				// within the library's tolerance
+				good = good && vhSamePt(s.end, sub.start, exact)
 				if k > 0 && sub.segs[k-1].cmd == LineToCmd {
 					// Close() turns a LineTo that returns to the start into the Close itself
 					good = good && !vhSamePt(s.start, s.end, exact)
@@ -217,4 +220,110 @@ func vhSameData(a, b []float64) bool {
 		same = same && a[i] == b[i]
 	}
 	return same
+}
+
+// vhStructWF: structural well-formedness only (decodable from both ends, subpaths start with a
+// move, Close carries the subpath start, arc flags valid); no numeric/tolerance rules.
+func vhStructWF(p *Path) bool {
+	subs, ok := vhDecode(p.d)
+	if !ok || !vhDecodableBackward(p.d) {
+		return false
+	}
+	good := true
+	for _, sub := range subs {
+		for k, s := range sub.segs {
+			switch s.cmd {
+			case CloseCmd:
+				if k != len(sub.segs)-1 {
+					return false
+				}
+				good = good && s.end.Equals(sub.start)
+			case ArcToCmd:
+				fl := s.a[3]
+				good = good && (fl == 0 || fl == 1 || fl == 2 || fl == 3)
+			}
+		}
+	}
+	return good
+}
+
+// vhRecords splits the stream into records (start offsets); the stream must be decodable.
+func vhRecords(d []float64) []int {
+	var offs []int
+	for i := 0; i < len(d); {
+		offs = append(offs, i)
+		switch d[i] {
+		case QuadToCmd:
+			i += 6
+		case CubeToCmd, ArcToCmd:
+			i += 8
+		default:
+			i += 4
+		}
+	}
+	return offs
+}
+
+// vhPreState builds a well-formed path whose last subpath has 0..maxSeg segments of any kind
+// (optionally closed), optionally preceded by an earlier closed subpath, or the empty path.
+func vhPreState(gen vhGen, maxSeg int, allowed []int) *Path {
+	p := &Path{}
+	switch vChoose(0, 2) {
+	case 0:
+		if vChoose(0, 1) == 0 {
+			return p // empty path
+		}
+	case 1:
+		// an earlier subpath: open line or closed two-line corner
+		vhRawSubpath(p, gen, []int{vhLine, vhLine}, vChoose(0, 1))
+	}
+	nseg := vChoose(0, maxSeg)
+	kinds := vhChooseKinds(nseg, allowed)
+	ck := 0
+	if nseg > 0 {
+		ck = vChoose(0, 1)
+	}
+	vhRawSubpath(p, gen, kinds, ck)
+	vAssume(vhWF(p))
+	return p
+}
+
+// vhHypotQ: a sound over-approximation of math.Hypot for the rational domain that avoids
+// non-linear constraints: some h with max(|x|,|y|) <= h <= |x|+|y| (and h = 0 iff x = y = 0).
+func vhHypotQ(x, y float64) float64 {
+	ax, ay := math.Abs(x), math.Abs(y)
+	if ay == 0 {
+		return ax
+	}
+	if ax == 0 {
+		return ay
+	}
+	h := vNondetF64()
+	vAssume(h >= ax && h >= ay && h <= ax+ay)
+	return h
+}
+
+// vhAtan2Sign: atan2 over-approximated by its sign/zero structure: result r in (-pi, pi] with
+// sign(r) = sign(y), r = 0 iff (y = 0 and x > 0) [x = y = 0 gives 0].
+func vhAtan2Sign(y, x float64) float64 {
+	if y == 0 {
+		if x >= 0 {
+			return 0
+		}
+		return math.Pi
+	}
+	r := vNondetF64()
+	if y > 0 {
+		vAssume(0 < r && r < math.Pi)
+	} else {
+		vAssume(-math.Pi < r && r < 0)
+	}
+	return r
+}
+
+// vhReal draws an arbitrary real (rational domain) / finite float in [-16,16].
+func vhReal() float64 {
+	x := vNondetF64()
+	vAssume(-16 <= x && x <= 16)
+	return x
 }
